@@ -38,17 +38,18 @@ Definition nb_reduce (rf : V -> V -> V) (arr : list V) (skipna : bool) (init : o
 
 (* reduce_1d for a value reduction: n_threads = 1 -> one pass; otherwise array_split into n_threads
    pieces, reduce each, then reduce the piece results with the chunk reduction *)
-Definition reduce_1d (rf chunk_rf : V -> V -> V) (init : option V) (skipna : bool) (arr : list V) (n_threads : nat) : V :=
+(* merge_skipna = skipna and chunk_reduction != "sum": partial sums / counts are added without looking for nulls *)
+Definition reduce_1d (rf chunk_rf : V -> V -> V) (init : option V) (skipna merge_skipna : bool) (arr : list V) (n_threads : nat) : V :=
   if (n_threads =? 1)%nat then nb_reduce rf arr skipna init
-  else nb_reduce chunk_rf (map (fun a => nb_reduce rf a skipna init) (array_split arr n_threads)) skipna init.
+  else nb_reduce chunk_rf (map (fun a => nb_reduce rf a skipna init) (array_split arr n_threads)) merge_skipna init.
 
 Inductive nanop := NSum | NMin | NMax | NSumSquare.
 Definition nan_reduce (op : nanop) (arr : list V) (n_threads : nat) : V :=
   match op with
-  | NSum => reduce_1d (op_sum o) (op_sum o) (Some (zero o)) true arr n_threads
-  | NSumSquare => reduce_1d (op_sum_square o) (op_sum o) (Some (zero o)) true arr n_threads
-  | NMin => reduce_1d (op_min o) (op_min o) None true arr n_threads
-  | NMax => reduce_1d (op_max o) (op_max o) None true arr n_threads
+  | NSum => reduce_1d (op_sum o) (op_sum o) (Some (zero o)) true false arr n_threads
+  | NSumSquare => reduce_1d (op_sum_square o) (op_sum o) (Some (zero o)) true false arr n_threads
+  | NMin => reduce_1d (op_min o) (op_min o) None true true arr n_threads
+  | NMax => reduce_1d (op_max o) (op_max o) None true true arr n_threads
   end.
 
 (* _nb_dot: out[row] += a[col][row] * b[col]  — columns given as lists, product supplied by the caller's domain *)
@@ -63,6 +64,7 @@ End Nanops.
 From Coq Require Import String.
 Open Scope string_scope.
 Definition nanops_dispatch : list (string * string * string * string) :=
-  [("is_count", "True", "int(0)", "'sum'");
+  [("second stage", "reduce_1d(chunk_reduction, chunks, skipna=merge_skipna, n_threads=1) with merge_skipna = skipna and chunk_reduction != 'sum'", "", "");
+   ("is_count", "True", "int(0)", "'sum'");
    ("'sum' in reduce_func_name", "skipna", "0", "'sum'");
    ("else", "skipna", "None", "reduce_func_name")].
